@@ -42,7 +42,18 @@ MATRIX_OPS = ["any0"]
 
 
 def _gen_input(rng):
-    k = rng.choice(["matrix", "matrix", "ragged", "ragged", "ragged", "intervals", "ragged_large"])
+    k = rng.choice(["matrix", "matrix", "ragged", "ragged", "ragged", "intervals", "ragged_large", "matrix_sparse"])
+    if k == "matrix_sparse":
+        # a wider matrix of mostly zero cells with a few short non-zero stretches per row, anywhere in the row
+        r, c = rng.randint(2, 4), rng.randint(3, 7)
+        rows = []
+        for _ in range(r):
+            row = [0] * c
+            for _ in range(rng.randint(0, 2)):
+                a = rng.randrange(c); b = min(c, a + rng.randint(1, 2)); v = rng.choice([1, 2, 3])
+                row[a:b] = [v] * (b - a)
+            rows.append(row)
+        return {"kind": "matrix", "rows": rows}
     if k == "ragged_large":
         # many rows with many coincident boundaries: sorts of > 16 keys with ties (stability matters)
         r = rng.randint(8, 14)
@@ -102,6 +113,11 @@ def cases(rng, tier):
         if it >= n_main:
             cls, f = "ragged", "col_range"
         p = {"inp": inp, "cls": cls, "f": f, "dtype": rng.choice(["int64", "int64", "int32", "float64", "uint8", "uint64", "int8", "float32"])}
+        if f in ("sum", "max", "argmax", "mean", "any", "all", "col_sum", "mean0", "any0", "np.sum", "np.mean", "np.max"):
+            # how the axis is spelled: row-wise as -1 / 1 / left to the default / positional; column-wise as 0 / -2
+            p["ax"] = rng.randint(0, 3)
+            if f == "any0":
+                p["thr"] = rng.choice([0, 1, 1, 2])
         if f in ("rows", "col_int", "col_range"):
             p["variant"] = rng.choice([0, 1, 2, 3])      # list / mask row selectors as plain Python lists (even) or ndarrays (odd)
         if f in ("rows", "col_int", "col_range") and rng.random() < 0.25:
@@ -296,16 +312,21 @@ def run_impl(p):
                 if p["rsel"]["t"] == "all" and p.get("ell") == "left":
                     return {"k": "val", "v": _norm(rl[..., slice(p["a"], p["b"], p["s"])])}
                 return {"k": "val", "v": _norm(rl[rs, slice(p["a"], p["b"], p["s"])])}
+            ax = p.get("ax", 0)
             if f in ("sum", "max", "argmax", "mean"):
-                return {"k": "val", "v": _norm(getattr(rl, f)(axis=-1))}
+                # (sum's own default is not row-wise: it is always given an axis)
+                kw = {"axis": -1} if ax in (0, 3) or (ax == 2 and f == "sum") else {"axis": 1} if ax == 1 else {}
+                return {"k": "val", "v": _norm(getattr(rl, f)(**kw))}
             if f in ("any", "all"):
-                return {"k": "val", "v": _norm(getattr(rl > 1, f)(axis=-1))}
+                return {"k": "val", "v": _norm(getattr(rl > 1, f)(axis=1 if ax == 1 else -1))}
+            cax = -2 if ax % 2 else 0
             if f == "col_sum":
-                return {"k": "val", "v": _norm(rl.sum(axis=0))}
+                return {"k": "val", "v": _norm(np.sum(rl, axis=0) if ax == 2 else rl.sum(axis=cax))}
             if f == "mean0":
-                return {"k": "val", "v": _norm(rl.mean(axis=0))}
+                return {"k": "val", "v": _norm(np.mean(rl, axis=0) if ax == 2 else rl.mean(axis=cax))}
             if f == "any0":
-                return {"k": "val", "v": _norm((rl > 1).any(axis=0))}
+                thr = p.get("thr", 1)
+                return {"k": "val", "v": _norm(np.any(rl > thr, axis=0) if ax == 2 else (rl > thr).any(axis=cax))}
             if f == "col_counts":
                 return {"k": "val", "v": _norm(rl.col_counts())}
             if f == "ravel":
@@ -313,7 +334,7 @@ def run_impl(p):
             if f == "concat":
                 return {"k": "val", "v": _norm(np.concatenate([rl, rl]))}
             if f in ("np.sum", "np.mean", "np.max"):
-                return {"k": "val", "v": _norm(getattr(np, f[3:])(rl, axis=-1))}
+                return {"k": "val", "v": _norm(getattr(np, f[3:])(rl, -1) if ax % 2 else getattr(np, f[3:])(rl, axis=-1))}
             if f == "unary":
                 return {"k": "val", "v": _norm(-rl)}
             if f == "scalar":
@@ -367,7 +388,7 @@ def oracle(p):
             elif f == "mean0":
                 v = [float(np.sum(np.array([x[j] for x in rows if len(x) > j], dtype=np.float64)) / sum(1 for x in rows if len(x) > j)) for j in range(w)]
             elif f == "any0":
-                v = [bool(any(x[j] > 1 for x in rows)) for j in range(w)]
+                v = [bool(any(x[j] > p.get("thr", 1) for x in rows)) for j in range(w)]
             elif f == "col_counts":
                 v = [sum(1 for x in rows if len(x) > j) for j in range(w)]
             elif f == "ravel":
@@ -415,7 +436,7 @@ def lean_request(p):
     if f == "any0":
         if p["cls"] != "2d":
             return None
-        req["f"] = "col_any"; req["thr"] = 1
+        req["f"] = "col_any"; req["thr"] = p.get("thr", 1)
         return req
     if f in ("any", "all"):
         # the implementation reduces (rl > 1); feed the model the thresholded data
